@@ -85,6 +85,8 @@ class FinalFeedback:
         # Check if we should suppress this feedback based on its
         # category and label (and also potentially fields)
         category = (feedback.category or Feedback.CATEGORIES.UNKNOWN).lower()
+        # Suppressions are filed under the canonical name of a category
+        category = Feedback.CATEGORIES.ALIASES.get(category, category)
         if category in self.suppressions:
             # The whole category, or any label within it (in either case
             # narrowed down by the suppression's fields, if it has any)
